@@ -45,7 +45,7 @@ type vkC09Ev struct {
 	Pub   string `json:"pub,omitempty"`   // ref: publication name
 	D     int    `json:"d,omitempty"`     // adv: days
 	Fault string `json:"fault,omitempty"` // ref: "" | "fail" (one file op fails) | "dual" (both writes fail) | "tombloop" (store cannot be opened); corrupt: "tomb" | "state"
-	File  string `json:"file,omitempty"`  // fail: "tomb" | "state"
+	File  string `json:"file,omitempty"`  // fail: "w1" | "w2" = first / second atomic write of the refresh (unchanged code: tombstones, then state)
 	Op    string `json:"op,omitempty"`    // fail: create|write|sync|close|rename|syncdir
 	N     int    `json:"n,omitempty"`     // fail/write: which write of that file; corrupt: shape 0..3
 }
@@ -107,7 +107,7 @@ func vkC09Events(thorough bool) []vkC09Ev {
 	}
 	for _, p := range fpubs {
 		evs = append(evs, vkC09Ev{Kind: "ref", Pub: p, Fault: "dual"})
-		for _, f := range []string{"tomb", "state"} {
+		for _, f := range []string{"w1", "w2"} {
 			for _, o := range ops {
 				evs = append(evs, vkC09Ev{Kind: "ref", Pub: p, Fault: "fail", File: f, Op: o.op, N: o.n})
 			}
@@ -681,7 +681,7 @@ func (w *vkC09World) refresh(ev vkC09Ev) (*vkC09Viol, string) {
 	case "fail":
 		per := map[string]int{"create": 1, "write": vkC09WritesPerFile, "sync": 1, "close": 1, "rename": 1, "syncdir": 1}
 		at := ev.N
-		if ev.File == "state" {
+		if ev.File == "w2" {
 			at += per[ev.Op]
 		}
 		if ev.Op == "close" { // closes of the files AutoTA reads come first
@@ -718,19 +718,27 @@ func (w *vkC09World) refresh(ev vkC09Ev) (*vkC09Viol, string) {
 	root.hook.Store(nil)
 	asked := root.queries.Load() > q0
 	w.lastResult = vkC09ResultDiff(res0, vkC09ResultCounters())
-	fired := false
+	fired, failedFile := false, ""
 	switch ev.Fault {
 	case "fail":
+		seg, segFile := 0, ""
 		for _, op := range plan.Log {
+			if op.Kind == "create" {
+				seg++
+				segFile = "state"
+				if strings.Contains(filepath.Base(op.Path), tombstoneFile) {
+					segFile = "tomb"
+				}
+			}
 			if op.Fail {
 				fired = true
-				isTomb := strings.Contains(filepath.Base(op.Path), tombstoneFile) || (op.Kind == "syncdir")
-				isState := !strings.Contains(filepath.Base(op.Path), tombstoneFile) || (op.Kind == "syncdir")
-				if op.Kind != ev.Op || (ev.File == "tomb" && !isTomb) || (ev.File == "state" && !isState) || !strings.Contains(op.Path, w.dir) {
-					return &vkC09Viol{Key: "harness", Msg: fmt.Sprintf("harness: fault %v hit op %s %s", ev, op.Kind, op.Path)}, "harness"
+				failedFile = segFile
+				want := 1
+				if ev.File == "w2" {
+					want = 2
 				}
-				if ev.Op == "close" && !strings.Contains(op.Path, ".tmp.") {
-					return &vkC09Viol{Key: "harness", Msg: fmt.Sprintf("harness: fault %v hit the close of a read file %s", ev, op.Path)}, "harness"
+				if op.Kind != ev.Op || seg != want || !strings.Contains(op.Path, w.dir) {
+					return &vkC09Viol{Key: "harness", Msg: fmt.Sprintf("harness: fault %v hit op %s %s (atomic write #%d)", ev, op.Kind, op.Path, seg)}, "harness"
 				}
 			}
 		}
@@ -756,7 +764,7 @@ func (w *vkC09World) refresh(ev vkC09Ev) (*vkC09Viol, string) {
 		if w.faultKind == "" {
 			w.faultKind = ev.Fault
 			if ev.Fault == "fail" {
-				w.faultKind += ":" + ev.File
+				w.faultKind += ":" + failedFile
 			}
 		}
 	}
